@@ -42,6 +42,11 @@ process or in the file system, must not show in what the next run hands to the u
 input-size dimension to clean_file: constant filler lines in front of the generated lines so that a size at which
 block-wise / buffered readers cut a file (4 KiB ... 2 MiB) lies inside, or at an edge of, the first address / host
 name / MAC of the first line, which stands once more at the end of the file.
+
+Round 7: sub-check `population` gives the histories the population-size dimension: the pools are extended by one or
+two populations of N originals of a class (a network walked with a stride, a numbered host family, a numbered MAC
+block; N around the sizes at which an allocator carries over or a table fills up: 10, 100, 128, 255/256/257, 512,
+1000, 1024 ...), the operations include sweeps that walk a population completely and later again.  Same oracle.
 """
 import hashlib
 import json
@@ -101,7 +106,17 @@ RULE = ("stateful: one Cleaner (IPv4, hostname, MAC on; 0-3 keywords) per case, 
         "4 in 10 a relative of an earlier member with one more hex digit at either end - 'fe80::1' / 'fe80::12'), "
         "delimiters and filler without hex digits, ':' or '.', optional prefix length / port; after every step "
         "consistency and the report sentences (mapping(), facts file, finally the CSV file); non-trivial: an address "
-        "recurs and >= 2 addresses were replaced.")
+        "recurs and >= 2 addresses were replaced. Sub-check population (round 7): a history (oracle of sub-check "
+        "history) whose pools of 2-5 originals per class are extended by 1-2 populations of N originals of one class, "
+        "written down by rule (IPv4: one of 9 base addresses walked with stride 1/2/7/255/256/257, incl. networks that "
+        "run through the substitute range; host names: stem + number [%d, %03d, -%d, %d.rack<k>] in the system's domain; "
+        "MAC: vendor prefix + 24-bit counter, ':'/'-', lower/upper), N drawn from sizes around which an allocator or a "
+        "table can go wrong (9-11, 99-101, 127-129, 253-258, 300, 511-513, 600, 999-1001, 1023-1025) or uniformly from "
+        "2..1100 (thorough ..2100; the second population <= 300); operations: 0-2 small ones, one complete sweep of "
+        "every population (list / clean_file / provider write, named or not, rows or free text, 1-4 members per line, "
+        "optionally one original of the small pools in front of every line), then 1-2 further sweeps (complete or a "
+        "part; forward / backward / second half first), 0-1 small one; non-trivial: a population of >= 100 and an "
+        "original that recurs in >= 2 operations.")
 ASSUMPTIONS = [
     "PYTHONHASHSEED is pinned by the runner; in sub-check history tokens of different classes never overlap "
     "textually, so the order in which the obfuscators run cannot matter there; sub-check compete makes keywords "
@@ -163,6 +178,8 @@ EXCLUDED = [
     "flag allow_width_hazard switches the skip off (pinned reproducer in REGRESSIONS, known finding "
     "C09-width-chained-replace)",
     "redaction patterns / allow-lists (lines would disappear; not part of C09)",
+    "population: more than 2100 originals of a class in one run (the unchanged look-up is a linear scan per occurrence, "
+    "65 536 addresses - where the third octet of the substitute range carries over - would cost minutes per case)",
     "compete: keywords that are substrings of a text the cleaner itself emits in the history (host<N>.example.com, "
     "the hash label, 10.230.230.<N>, keyword<N>, the MAC substitutes): the keyword obfuscator rewrites the "
     "substitutes of the others, the listed substitute is then no longer what the output shows (same class as the "
@@ -1130,6 +1147,193 @@ def strat_bigfile(tier):
     return _bigfile_history(1 if tier == "quick" else 3)
 
 
+# ---- big populations (round 7): a run that meets hundreds of different originals of a class ------------------
+# The substitutes of IPv4 addresses and host names come out of an allocator (next address of a range, next number of
+# a counter) and every obfuscator keeps a table of what it has issued; both can be right for a handful of originals
+# and wrong once the population crosses a size at which something carries over or fills up: the last octet of the
+# substitute range (254 / 255 / 256 addresses), the number of digits of a counter (10, 100, 1000), the size of a
+# bounded cache / table (powers of two).  A case of sub-check `population` is an ordinary history whose pools are
+# extended by one or two *populations* - N originals of one class written down by a compact rule (a network walked
+# with a stride, a numbered host family, a numbered MAC block), N around such sizes - and whose operations include
+# *sweeps*: specs (connection tables, address lists, free text) that walk the population, first completely, later
+# again (forward / backward / second half first) so that every original recurs after the whole population has been
+# met.  The descriptors are expanded into literal pools and lines by a pure function; the oracle is that of
+# sub-check history, nothing else.
+
+POP_SIZES = [9, 10, 11, 99, 100, 101, 127, 128, 129, 253, 254, 255, 256, 257, 258, 300, 511, 512, 513, 600, 999, 1000,
+             1001, 1023, 1024, 1025]
+POP_IP_BASES = ["192.168.7.1", "10.0.0.1", "172.16.254.200", "10.230.229.200", "10.230.230.1", "100.64.0.250",
+                "1.1.1.1", "192.168.0.0", "10.231.0.7"]
+POP_HOST_STEMS = ["node", "web", "vm-", "srv_", "n", "pod-x", "db"]
+POP_HOST_FMTS = ["%d", "%d", "%03d", "-%d", "%d.rack"]
+POP_MAC_PREFIXES = ["52:54:00", "00:1a:4a", "fa:16:3e", "08:00:27"]
+
+
+def population(desc, domain):
+    """the N different originals a population descriptor stands for"""
+    cls, n = desc["cls"], desc["n"]
+    assert cls in ("ip", "host", "mac") and 1 <= n <= 4200, desc
+    if cls == "ip":
+        assert desc["base"] in POP_IP_BASES and 1 <= desc["stride"] <= 300, desc
+        o = [int(x) for x in desc["base"].split(".")]
+        first = ((o[0] * 256 + o[1]) * 256 + o[2]) * 256 + o[3]
+        out = []
+        for i in range(n):
+            v = first + i * desc["stride"]
+            out.append("%d.%d.%d.%d" % (v >> 24, (v >> 16) & 255, (v >> 8) & 255, v & 255))
+        assert first + n * desc["stride"] < 224 << 24
+        return out
+    if cls == "host":
+        assert domain and desc["stem"] in POP_HOST_STEMS and desc["fmt"] in POP_HOST_FMTS and 0 <= desc["from"] <= 1000, desc
+        if desc["fmt"].endswith(".rack"):
+            return ["%s%d.rack%d.%s" % (desc["stem"], desc["from"] + i, i % 3, domain) for i in range(n)]
+        return ["%s%s.%s" % (desc["stem"], desc["fmt"] % (desc["from"] + i), domain) for i in range(n)]
+    assert desc["prefix"] in POP_MAC_PREFIXES and 0 <= desc["from"] < 2 ** 23 and 1 <= desc["stride"] <= 300, desc
+    sep = "-" if desc.get("dash") else ":"
+    out = []
+    for i in range(n):
+        v = desc["from"] + i * desc["stride"]
+        m = sep.join(desc["prefix"].split(":") + ["%02x" % ((v >> 16) & 255), "%02x" % ((v >> 8) & 255), "%02x" % (v & 255)])
+        out.append(m.upper() if desc.get("upper") else m)
+    return out
+
+
+def sweep_lines(sw, offset, n, npool):
+    """the lines of a sweep: `count` members of population `pop` (pool indices offset .. offset+n-1), `per_line`
+    to a line, in the given order; optionally one original of the small pool in front of every line (the local
+    address of a connection table, the host a list belongs to)"""
+    count = min(max(sw["count"], 1), n)
+    idx = [(sw["start"] + t) % n for t in range(count)]
+    if sw["order"] == "rev":
+        idx.reverse()
+    elif sw["order"] == "halves":
+        idx = idx[count // 2:] + idx[:count // 2]
+    k = min(max(sw["per_line"], 1), 4)
+    lines = []
+    for a in range(0, count, k):
+        toks = [[sw["cls"], offset + j, sw["ld"], sw["rd"], sw["fill"]] for j in idx[a:a + k]]
+        if sw.get("local"):
+            toks.insert(0, [sw["local"][0], sw["local"][1] % npool[sw["local"][0]], 0, sw["rd"], " "])
+        lines.append({"pre": sw["pre"], "toks": toks})
+    return lines
+
+
+def expand_population(case):
+    """-> the history case (literal pools, literal lines) that a population case stands for"""
+    fqdn = case["fqdn"]
+    domain = fqdn.split(".", 1)[1] if "." in fqdn else None
+    pools = dict((c, list(v)) for c, v in case["pools"].items())
+    npool = dict((c, len(v)) for c, v in pools.items())
+    where = []
+    for desc in case["many"]:
+        members = population(desc, domain)
+        where.append((desc["cls"], len(pools[desc["cls"]]), len(members)))
+        pools[desc["cls"]] += members
+    ops = []
+    for op in case["ops"]:
+        if "sweep" in op:
+            sw = op["sweep"]
+            cls, offset, n = where[sw["pop"] % len(where)]
+            op = dict((k, v) for k, v in op.items() if k != "sweep")
+            op["lines"] = sweep_lines(dict(sw, cls=cls), offset, n, npool)
+        else:
+            # (free lines refer to the small pools only, as in every other sub-check)
+            op = dict(op, lines=[{"pre": ln["pre"], "toks": [[t[0], t[1] % npool[t[0]]] + list(t[2:]) for t in ln["toks"]]}
+                                 for ln in op["lines"]])
+        ops.append(op)
+    return {"fqdn": fqdn, "renamed": case.get("renamed"), "pools": pools, "ops": ops}
+
+
+def check_population(case):
+    """one collection run that meets big populations of originals: expanded into a plain history, judged as one"""
+    full = expand_population(case)
+    res = check_history(full)
+    labels = set(l for l in res["labels"] if not l.startswith("steps="))
+    sizes = {}
+    for desc in case["many"]:
+        sizes[desc["cls"]] = sizes.get(desc["cls"], 0) + desc["n"]
+        labels.add("population-of=" + desc["cls"])
+    for cls, n in sizes.items():
+        labels.add("%s-population-%s" % (cls, "2-99" if n < 100 else "100-255" if n < 256 else "256-999" if n < 1000
+                                         else "1000+"))
+    walked = {}
+    for op in case["ops"]:
+        if "sweep" in op:
+            sw = op["sweep"]
+            p = sw["pop"] % len(case["many"])
+            full_pass = sw["count"] >= case["many"][p]["n"]
+            labels.add("sweep-order=" + sw["order"])
+            labels.add("sweep-via=" + op["op"])
+            if walked.get(p):
+                labels.add("population-walked-again-after-a-complete-pass")
+            walked[p] = walked.get(p, False) or full_pass
+    labels.add("sweeps=%d" % sum(1 for op in case["ops"] if "sweep" in op))
+    big = any(n >= 100 for n in sizes.values())
+    return {"nontrivial": big and "original-recurs-in-2-specs" in labels, "labels": sorted(labels)}
+
+
+@st.composite
+def _population_case(draw, max_n):
+    case = draw(_pools(spellings=False))
+    pools = case["pools"]
+    for c in ("ip", "host", "mac"):
+        del pools[c][max(draw(st.integers(2, 5)), 2 if c != "host" else 3):]
+    has_domain = "." in case["fqdn"]
+    size = st.one_of(st.sampled_from(POP_SIZES), st.sampled_from([s for s in POP_SIZES if s >= 250]),
+                     st.integers(2, 1100), st.integers(2, max_n)).filter(lambda s: s <= max_n)
+    many = []
+    for i in range(draw(st.sampled_from([1, 1, 2]))):
+        cls = draw(st.sampled_from(["ip", "ip", "ip", "host", "host", "mac"]))
+        if cls == "host" and not has_domain:
+            cls = "ip"
+        n = draw(size) if i == 0 else min(draw(size), 300)
+        if cls == "ip":
+            many.append({"cls": "ip", "n": n, "base": draw(st.sampled_from(POP_IP_BASES)),
+                         "stride": draw(st.sampled_from([1, 1, 1, 1, 2, 7, 255, 256, 257]))})
+        elif cls == "host":
+            many.append({"cls": "host", "n": n, "stem": draw(st.sampled_from(POP_HOST_STEMS)),
+                         "fmt": draw(st.sampled_from(POP_HOST_FMTS)), "from": draw(st.sampled_from([0, 1, 1, 2, 95, 990]))})
+        else:
+            many.append({"cls": "mac", "n": n, "prefix": draw(st.sampled_from(POP_MAC_PREFIXES)),
+                         "from": draw(st.sampled_from([0, 1, 250, 65530, 1000000])),
+                         "stride": draw(st.sampled_from([1, 1, 1, 3, 256])), "dash": draw(st.integers(0, 3)) == 0,
+                         "upper": draw(st.integers(0, 3)) == 0})
+    weights = ["ip"] * 3 + ["host"] * 3 + ["mac"] * 2 + (["kw"] if pools["kw"] else [])
+    classes = st.sampled_from(weights)
+
+    def sweep(pop, complete):
+        n = many[pop]["n"]
+        cls = many[pop]["cls"]
+        kind = draw(st.sampled_from(["list", "list", "file", "file", "write"]))
+        op = {"op": kind, "no_obf": [], "sweep": {
+            "pop": pop, "start": 0 if complete else draw(st.integers(0, n - 1)),
+            "count": n if complete or draw(st.integers(0, 2)) else draw(st.integers(1, n)),
+            "per_line": draw(st.sampled_from([1, 1, 2, 3, 4])), "order": draw(st.sampled_from(["fwd", "fwd", "rev", "halves"])),
+            "ld": draw(st.integers(0, 17)), "rd": draw(st.integers(0, 15)),
+            "pre": draw(st.sampled_from(["", "", "G ", "LMNOP  ", " HOP IJ="])), "fill": draw(st.sampled_from(["", " ", " GHK ", ", "]))}}
+        if draw(st.integers(0, 2)) == 0:
+            op["sweep"]["local"] = [draw(st.sampled_from(["ip", "ip", "host", "mac"])), draw(st.integers(0, 7))]
+        if kind in ("file", "write"):
+            _name_op(draw, op)
+        return op
+
+    ops = [_small_op(draw, classes) for _ in range(draw(st.integers(0, 2)))]
+    for pop in range(len(many)):
+        ops.append(sweep(pop, True))
+        if draw(st.integers(0, 2)) == 0:
+            ops.append(_small_op(draw, classes))
+    for _ in range(draw(st.integers(1, 2))):
+        ops.append(sweep(draw(st.integers(0, len(many) - 1)), False))
+    ops.extend(_small_op(draw, classes) for _ in range(draw(st.integers(0, 1))))
+    case["many"] = many
+    case["ops"] = ops
+    return case
+
+
+def strat_population(tier):
+    return _population_case(1100 if tier == "quick" else 2100)
+
+
 # ---- several collection runs that find each other's reports (round 6) ---------------------------------------
 
 ARCHIVES = ["insights-c09-archive", "insights-c09-20260926101500"]
@@ -1249,6 +1453,28 @@ def selftest():
             b = bulk_text({"boundary": boundary, "cut": cut, "one_line": True}, line, tok)
             assert (b + line)[boundary - c:boundary - c + len(tok)] == tok and b.endswith(" ") and "\n" not in b
             assert FILLER_OK.match(b)
+    # populations (round 7): the descriptors stand for exactly these originals / lines
+    assert population({"cls": "ip", "n": 4, "base": "172.16.254.200", "stride": 255}, "d.io") == [
+        "172.16.254.200", "172.16.255.199", "172.17.0.198", "172.17.1.197"]
+    assert population({"cls": "host", "n": 3, "stem": "vm-", "fmt": "%03d", "from": 99}, "d.io") == [
+        "vm-099.d.io", "vm-100.d.io", "vm-101.d.io"]
+    assert population({"cls": "mac", "n": 2, "prefix": "52:54:00", "from": 65535, "stride": 1, "upper": True}, None) == [
+        "52:54:00:00:FF:FF", "52:54:00:01:00:00"]
+    for d in ([{"cls": "ip", "n": 1025, "base": b, "stride": s_} for b in POP_IP_BASES for s_ in (1, 257)]
+              + [{"cls": "host", "n": 1025, "stem": a, "fmt": f, "from": 990} for a in POP_HOST_STEMS for f in POP_HOST_FMTS]
+              + [{"cls": "mac", "n": 1025, "prefix": a, "from": 65530, "stride": 3} for a in POP_MAC_PREFIXES]):
+        members = population(d, "corp.acme.org")
+        assert len(set(members)) == 1025 and "127.0.0.1" not in members, d
+    ex = expand_population({"fqdn": "web.d.io", "pools": pools, "many": [{"cls": "ip", "n": 5, "base": "10.0.0.1", "stride": 1}],
+                            "ops": [{"op": "list", "no_obf": [], "sweep": {"pop": 0, "start": 1, "count": 9, "per_line": 2,
+                                                                          "order": "halves", "ld": 1, "rd": 1, "pre": "G ",
+                                                                          "fill": "", "local": ["host", 5]}},
+                                    {"op": "str", "no_obf": [], "lines": [{"pre": "", "toks": [["ip", 7, 0, 0, ""]]}]}]})
+    assert ex["pools"]["ip"] == ["1.2.3.4", "1.2.3.45", "10.0.0.1", "10.0.0.2", "10.0.0.3", "10.0.0.4", "10.0.0.5"]
+    assert [[t[:2] for t in ln["toks"]] for ln in ex["ops"][0]["lines"]] == [
+        [["host", 2], ["ip", 5], ["ip", 6]], [["host", 2], ["ip", 2], ["ip", 3]], [["host", 2], ["ip", 4]]], ex["ops"][0]
+    assert ex["ops"][1]["lines"][0]["toks"] == [["ip", 1, 0, 0, ""]]
+    _validate(ex)
     for name, bad in [("host", True), ("ost2", True), ("t12", True), ("com", True), ("xam", True), ("key", True),
                       ("d0", True), ("ab", True), ("a-b", True), ("12", True), ("web01", False), ("db", True), ("dbz", False),
                       ("hostz", False), ("node", False), ("_srv", False), ("x1", False), ("keys", False)]:
@@ -1522,10 +1748,10 @@ def strat_ipv6(tier):
 
 SUBS = [
     Sub("sysname", check_sysname, strategy=strat_sysname, quick=100, thorough=1000, workers_quick=2, workers_thorough=4),
-    Sub("history", check_history, strategy=strat_history, quick=400, thorough=3500, workers_quick=4,
-        workers_thorough=16, budget_quick=30, budget_thorough=400),
-    Sub("specfiles", check_history, strategy=strat_specfiles, quick=130, thorough=1500, workers_quick=4,
-        workers_thorough=16, budget_quick=10, budget_thorough=110),
+    Sub("history", check_history, strategy=strat_history, quick=360, thorough=3500, workers_quick=4,
+        workers_thorough=16, budget_quick=26, budget_thorough=400),
+    Sub("specfiles", check_history, strategy=strat_specfiles, quick=120, thorough=1500, workers_quick=4,
+        workers_thorough=16, budget_quick=9, budget_thorough=110),
     Sub("compete", check_history, strategy=strat_compete, quick=140, thorough=1500, workers_quick=4,
         workers_thorough=16, budget_quick=10, budget_thorough=110),
     Sub("runs", check_runs, strategy=strat_runs, quick=40, thorough=600, workers_quick=4,
@@ -1533,6 +1759,8 @@ SUBS = [
     Sub("bigfile", check_history, strategy=strat_bigfile, quick=12, thorough=150, workers_quick=4,
         workers_thorough=16, budget_quick=6, budget_thorough=60),
     Sub("ipv6", check_ipv6, strategy=strat_ipv6, quick=120, thorough=2500, workers_quick=4,
+        workers_thorough=16, budget_quick=6, budget_thorough=90),
+    Sub("population", check_population, strategy=strat_population, quick=10, thorough=150, workers_quick=4,
         workers_thorough=16, budget_quick=6, budget_thorough=90),
 ]
 
